@@ -329,6 +329,9 @@ type Term struct {
 	W, H      int
 	FailAfter int // writes from this index on fail with EPIPE (-1 = never)
 	nWrites   int
+	// OnWrite, if set, is called at the start of every write (harness bookkeeping)
+	OnWrite  func() int
+	WriteTag []int // what OnWrite returned for each write
 }
 
 var ErrEPIPE = errors.New("broken pipe")
@@ -346,6 +349,11 @@ func (t *Term) Write(p []byte) (int, error) {
 	if len(t.WriteAt) < 1<<16 {
 		t.WriteAt = append(t.WriteAt, t.os.Seq())
 		t.WriteLen = append(t.WriteLen, len(p))
+		tag := 0
+		if t.OnWrite != nil {
+			tag = t.OnWrite()
+		}
+		t.WriteTag = append(t.WriteTag, tag)
 	}
 	return len(p), nil
 }
